@@ -3,6 +3,7 @@
   the interpreter's mutual block (see `Lemmas/Fuel.lean`).
 -/
 import Pongo.Lemmas.Fuel
+import Pongo.Lemmas.FuelParse
 
 namespace Pongo
 
@@ -28,6 +29,16 @@ theorem le_withFrameView {α} (n fid : Nat) {m m' : XM α} (hm : Le m m') :
     refine le_tryCatch ?_ ?_
     · exact le_bind hm fun _ => le_refl _
     · intro e s; exact ⟨e, _, rfl, rfl⟩
+
+/-- … which is a theorem (Lemmas/FuelParse.lean) -/
+theorem compileMono : CompileMono T cfg := by
+  intro n cs name h
+  have key := (allLeD T cfg n).fromFile cs name
+  unfold LeP at key
+  apply key
+  cases hA : fromFile T cfg n cs name with
+  | ok r => simp [NotOof]
+  | error e => simpa [NotOof] using h e hA
 
 structure AllLe (n : Nat) : Prop where
   eval : ∀ x0, Le (eval T cfg g n x0) (eval T cfg g (n + 1) x0)
